@@ -249,6 +249,15 @@ def run_batch(sh, w, batch, base_vars, tier_key, fuel=None):
             if ev.get("o") in ("crash", "timeout", "skipped", "fuel", "depth"):
                 sh.inconc("contain:" + ev.get("o"), s)
                 continue
+            # a call whose outcome depends on dict iteration order (random per map) may raise in one run
+            # and not in the next: report only if the bare call raises and the wrapped one escapes in
+            # each of three fresh repetitions
+            rep = core.eval_all(w, [text, s] * 3, prelude=pool.PRELUDE, fresh_each=True, fuel=fuel, mem=MEM, jid="c14cc")
+            bare_raise = all(e.get("o") == "throw" for e in rep[0::2])
+            wrapped_bad = all(not (e.get("o") == "ok" and norm(e.get("v")) == {"i": "77"}) for e in rep[1::2])
+            if not (bare_raise and wrapped_bad):
+                sh.count("contain:nondeterministic-outcome")
+                continue
             sh.violation("uncaught|%s" % callee, "%s raised, but `%s` gave %s %s" % (text, s, ev.get("o"), str(ev.get("v") or ev.get("err"))[:80]),
                          {"job": {"kind": "eval", "prelude": pool.PRELUDE, "stmts": [s]}})
 
